@@ -432,6 +432,8 @@ def evaluate(case, out):
     for key, a in con.assertions.items():
         x, counts = _population(case, a)
         t = copy.deepcopy(a.test)
+        # the bound this assertion's test is to be told (C06): its own, whatever other assertions of the contest have
+        t.u = a.assorter.upper_bound if case["audit_type"] == "POLLING" else 2 / (2 - a.margin / a.assorter.upper_bound)
         if x is None:
             # polling: the population is the interleaving of the reported tallies; its composition is fixed by the
             # statement, its order by interleave_values (checked separately): take the order from there
